@@ -201,6 +201,50 @@ def initSys (old : Option Bytes) : Sys :=
   | none => ⟨⟨none, none, fun _ => [], 0⟩, false, [], []⟩
   | some b => ⟨⟨some 0, none, fun i => if i = 0 then b else [], 1⟩, false, [], []⟩
 
+/-! ### (i′) every saver, with the save lock (b09a77b)
+
+`RdbEngine::save` holds `save_lock` from opening the temporary file to renaming it.  Savers that
+the flag does not keep apart — SHUTDOWN's save (no flag test at all) and the auto-save thread
+starting a background save in the middle of a SAVE — therefore wait instead of opening (and
+truncating) the file under the first writer.  A waiting saver has made no file operation yet;
+it gets the lock (gets the lock) only when no save holds it. -/
+
+structure SysL where
+  core : Sys                      -- files, the save that holds the lock (at most one), results; `core.flag` mirrors "the holder is a background save"
+  flag : Bool                     -- `bgsave_in_progress`
+  waiting : List (Bool × Job)     -- started, blocked in `save_lock.lock()`
+
+inductive EvL where
+  | save (j : Job)        -- `SAVE` (handle_save tests the flag, then calls `save`)
+  | bgsave (j : Job)      -- `BGSAVE`, or the auto-save thread calling `bgsave` — at any moment, also during a SAVE
+  | shutdown (j : Job)    -- `SHUTDOWN`: calls `save` without looking at the flag
+  | grant (i : Nat)       -- the i-th waiting saver gets the lock (any order: a mutex is not fair)
+  | step                  -- the holder performs its next file operation
+
+def stepL (s : SysL) : EvL → SysL
+  | .save j =>
+    if s.flag then { s with core := { s.core with log := .refused :: s.core.log } }
+    else { s with waiting := s.waiting ++ [(false, j)] }
+  | .bgsave j =>
+    if s.flag then { s with core := { s.core with log := .refused :: s.core.log } }
+    else { s with flag := true, waiting := s.waiting ++ [(true, j)] }
+  | .shutdown j => { s with waiting := s.waiting ++ [(false, j)] }
+  | .grant i =>
+    match s.core.procs, s.waiting[i]? with
+    | [], some (bg, j) =>
+      { s with core := { s.core with flag := bg, procs := s.core.procs ++ [mkProc bg j] }, waiting := s.waiting.eraseIdx i }
+    | _, _ => s
+  | .step =>
+    match s.core.procs with
+    | [p] =>
+      let c := stepProc s.core 0 p
+      { s with core := c, flag := if c.procs.isEmpty && p.bg then false else s.flag }
+    | _ => s
+
+def runL (s : SysL) (evs : List EvL) : SysL := evs.foldl stepL s
+
+def initSysL (old : Option Bytes) : SysL := ⟨initSys old, false, []⟩
+
 /-! ### (ii) the save loop seen from one key -/
 
 /-- client commands on the key, by their effect -/
